@@ -1207,7 +1207,10 @@ func (o *oracles) livenessFailedFor(prop string, what string) {
 					behind++
 				}
 			}
-			if voters > 0 && behind == voters {
+			// the entries only the witness holds were written by the replica that
+			// was removed (it led the term of the witness's last entry): a witness
+			// that is ahead for any other reason is not this finding
+			if voters > 0 && behind == voters && o.leaderOfTerm[ws.LastTerm] == x.replicaID {
 				desc = fmt.Sprintf("cause=witness-ahead-of-every-voter: replica %d was removed and is gone, witness %d holds the metadata of entries up to (term %d, index %d) that no remaining full member has; ", x.replicaID, w.replicaID, ws.LastTerm, ws.LastIndex) + desc
 				break
 			}
